@@ -189,8 +189,10 @@ class PolyChordOptimizer(Optimizer):
         cluster_list = glob.glob(os.path.join(dir, 'clusters/1-*.txt'))
         c_idx = []
         for file in cluster_list:
-            if file[-5].isdigit():
-                c_idx.append(int(file[-5]))
+            # '1-_<number>.txt': the whole number, not its last digit
+            number = os.path.basename(file)[:-4].split('_')[-1]
+            if number.isdigit():
+                c_idx.append(int(number))
         try:
             num = np.max(c_idx)
         except ValueError:
@@ -220,10 +222,14 @@ class PolyChordOptimizer(Optimizer):
                     stats['global evidence'] = gL_mu
                     stats['global evidence error'] = gL_sig
                 if idx > 13:  # skip to local evidence
-                    tmp_line = line.split()
+                    # 'log(Z_ 1)  =  <value> +/-  <error>'; from the tenth
+                    # cluster on there is no blank inside 'log(Z_10)'
+                    tmp_line = line.split('=')[1].split('+/-')
                     stats['modes'][nmode] = {}
-                    stats['modes'][nmode]['local log-evidence'] = tmp_line[3]
-                    stats['modes'][nmode]['local log-evidence error'] = tmp_line[5]
+                    stats['modes'][nmode]['local log-evidence'] = \
+                        tmp_line[0].strip()
+                    stats['modes'][nmode]['local log-evidence error'] = \
+                        tmp_line[1].strip()
                     nmode += 1
                     # stopping reading file when clusters are exhausted
                     if idx == (13 + num_clusters):
